@@ -73,6 +73,9 @@ type HistSys struct {
 	ModelCanon func(h *HistSys, w *world.World) string
 	// Step, when set, runs after every operation of a replay (prefix included): oracles with incremental scratch state.
 	Step func(w *world.World)
+	// StopAtViolation: successors of a violating state are not explored (state invariants persist and would be reported again
+	// for every later operation).
+	StopAtViolation bool
 }
 
 func (h *HistSys) pod(i int) world.PodSpec { return h.Class.pod(i) }
@@ -465,6 +468,9 @@ func BFS(h *HistSys, maxDepth int, deadline time.Time, oracle HistOracle, perTra
 							return res
 						}
 						// keep expanding: a known finding must not hide other violations behind it
+						if h.StopAtViolation {
+							seen[c] = true
+						}
 					}
 				}
 				if perTransition != nil {
